@@ -108,6 +108,67 @@ fn shim_zrs_to_rrs(zrs: &Vec<ZoneRecord>, name: &DomainName) -> (r: Vec<Resource
 """
 
 
+ZONES_SPEC_RS = """
+// every configured zone is keyed by its own apex and satisfies the representation invariant (established by Zones::insert /
+// insert_merge / merge in unit zone_merge)
+spec fn zones_wf(zs: Zones) -> bool {
+    forall|k: DomainName| #[trigger] zs.zones@.contains_key(k) ==> zs.zones@[k].apex == k && zone_wf(zs.zones@[k]) && k.wf()
+}
+// TRUSTED companion of the key model: equality of DomainName is equality of its labels (derived PartialEq / Hash on Vec<Label>)
+pub closed spec fn same_labels(a: DomainName, b: DomainName) -> bool { a.labels@ == b.labels@ }
+pub broadcast axiom fn axiom_dn_ext(a: DomainName, b: DomainName)
+    requires a.wf(), b.wf(), #[trigger] same_labels(a, b)
+    ensures a == b;
+pub broadcast axiom fn axiom_dn_eq_structural(a: DomainName, b: DomainName)
+    ensures #[trigger] a.eq_spec(&b) == (a == b);
+// R40: `slice.into()` (From<&[T]> for Vec<T>: clones the elements)
+#[verifier::external_body]
+fn shim_labels_to_vec(s: &[Label]) -> (r: Vec<Label>) ensures r@ == s@ { s.into() }
+// C01: "the most specific configured zone enclosing a name"
+spec fn most_specific(zs: Zones, name: DomainName, apex: DomainName) -> bool {
+    zs.zones@.contains_key(apex) && is_suffix(apex.labels@, name.labels@)
+    && forall|k: DomainName| #[trigger] zs.zones@.contains_key(k) && is_suffix(k.labels@, name.labels@) ==> k.labels@.len() <= apex.labels@.len()
+}
+proof fn lemma_suffix_by_len(a: Seq<Label>, full: Seq<Label>)
+    requires is_suffix(a, full)
+    ensures a == full.subrange(full.len() - a.len(), full.len() as int)
+{}
+"""
+
+ZONES_SPECS = {
+    "Zones::get": {"props": ["C01", "C02"], "depub": True,
+        "rewrites": [("R40", r"DomainName::from_labels\(labels\.into\(\)\)", "DomainName::from_labels(shim_labels_to_vec(labels))")],
+        "contract": """    requires name.wf(), zones_wf(*self),
+    ensures
+        r is Some ==> most_specific(*self, *name, r->Some_0.apex) && *r->Some_0 == self.zones@[r->Some_0.apex], // [C01,C02:most_specific_enclosing_zone_is_chosen]
+        r is None ==> forall|k: DomainName| #[trigger] self.zones@.contains_key(k) ==> !is_suffix(k.labels@, name.labels@), // [C01,C02:no_zone_only_when_none_encloses_the_name]""",
+        "entry": "broadcast use vstd::std_specs::hash::group_hash_axioms, axiom_dn_key_model, axiom_dn_ext; proof { lemma_labels_sum_lower(name.labels@); }",
+        "loops": {"0": {"kw": "for", "iter_name": "it__", "spec": """        invariant name.wf(), zones_wf(*self), name.labels@.len() <= 255,
+            forall|k: DomainName| #[trigger] self.zones@.contains_key(k) && is_suffix(k.labels@, name.labels@) ==> k.labels@.len() <= name.labels@.len() - it__.index@,""",
+            "entry": "broadcast use vstd::std_specs::hash::group_hash_axioms, axiom_dn_key_model, axiom_dn_ext; let ghost i__ = i as int; let ghost qn__ = *name;"}},
+        "anchors": [{"after": "let labels = &name.labels[i..];", "proof": """proof {
+    assert(labels@ == name.labels@.subrange(i__, name.labels@.len() as int));
+    lemma_suffix_wf(name.labels@, i__);
+}"""},
+                    {"after": "if let Some(name) = DomainName::from_labels(labels.into()) {", "proof": """proof {
+    // a zone whose apex has exactly this many labels and encloses the name is keyed by this very suffix
+    assert forall|k: DomainName| #[trigger] self.zones@.contains_key(k) && is_suffix(k.labels@, qn__.labels@) && k.labels@.len() == qn__.labels@.len() - i__ implies k == name by {
+        lemma_suffix_by_len(k.labels@, qn__.labels@);
+        assert(same_labels(k, name));
+    }
+    assert(qn__.labels@.subrange(0, i__) + name.labels@ =~= qn__.labels@);
+    lemma_suffix_of_concat(qn__.labels@.subrange(0, i__), name.labels@, qn__.labels@);
+}"""}]},
+    "Zones::resolve": {"props": ["C01", "C02", "C10"], "depub": True,
+        "contract": """    requires name.wf(), zones_wf(*self),
+    ensures
+        r is Some ==> most_specific(*self, *name, r->Some_0.0.apex) && *r->Some_0.0 == self.zones@[r->Some_0.0.apex], // [C01,C02:most_specific_enclosing_zone_is_chosen]
+        r is Some ==> lookup_ok(r->Some_0.1, r->Some_0.0.records, *name, qtype, rel_labels(*name, r->Some_0.0.apex), true), // [C02:lookup_algorithm_at_apex]
+        r is Some ==> owners_ok(r->Some_0.1, *name), // [C02,C10:answer_records_owned_by_the_query_name]
+        r is None ==> forall|k: DomainName| #[trigger] self.zones@.contains_key(k) ==> !is_suffix(k.labels@, name.labels@), // [C01,C02:no_zone_only_when_none_encloses_the_name]"""},
+}
+
+
 def adapt(specs, Z):
     """The lookup functions exist in two shapes: with an explicit `at_apex` / `delegable` parameter (after fix D-d) or
     without.  The contract is the same relation `lookup_ok`; only the argument naming the apex flag differs."""
@@ -123,7 +184,7 @@ def build(G):
     name_types(G, tryfrom=False)
     wire_types(G, conv_props=[], conv_mode="assume")
     G.file(os.path.join(PRELUDE, "wire_spec.rs"))
-    zone_types(G, with_zones=False)
+    zone_types(G, with_zones=True)
     G.file(os.path.join(PRELUDE, "hash.rs"))
     G.raw(OWNERS_OK_RS, ("spec", "owners_ok"))
     G.file(os.path.join(VERIF, "units", "zone_lookup.spec.rs"))
@@ -139,10 +200,15 @@ def build(G):
     G.top_fn(Z, "zone_result_helper", specs)
     G.impl(Z, "ZoneRecords", ["resolve"], "ZoneRecords::", specs)
     G.impl(Z, "Zone", ["relative_domain", "resolve"], "Zone::", specs)
+    G.raw(ZONES_SPEC_RS, ("spec", "zones spec"))
+    specs.update({k: dict(v) for k, v in ZONES_SPECS.items()})
+    G.impl(Z, "Zones", ["get", "resolve"], "Zones::", specs)
     end(G)
 
 
 CANARIES = [
+    {"name": "least_specific_zone_first", "file": ZTYPES, "old": "        for i in 0..name.labels.len() {\n            let labels = &name.labels[i..];\n            if let Some(name) = DomainName::from_labels(labels.into()) {\n                if let Some(zone) = self.zones.get(&name) {", "new": "        for i in (0..name.labels.len()).rev() {\n            let labels = &name.labels[i..];\n            if let Some(name) = DomainName::from_labels(labels.into()) {\n                if let Some(zone) = self.zones.get(&name) {"},
+    {"name": "zone_lookup_skips_the_name_itself", "file": ZTYPES, "old": "        for i in 0..name.labels.len() {\n            let labels = &name.labels[i..];\n            if let Some(name) = DomainName::from_labels(labels.into()) {\n                if let Some(zone) = self.zones.get(&name) {", "new": "        for i in 1..name.labels.len() {\n            let labels = &name.labels[i..];\n            if let Some(name) = DomainName::from_labels(labels.into()) {\n                if let Some(zone) = self.zones.get(&name) {"},
     {"name": "ns_check_eq", "file": ZTYPES, "old": "QueryType::Record(RecordType::NS) != qtype {", "new": "QueryType::Record(RecordType::NS) == qtype {"},
     {"name": "wildcard_owner", "file": ZTYPES, "old": "zone_result_helper(name, qtype, wildcards, &nsdname, true)", "new": "zone_result_helper(&nsdname, qtype, wildcards, &nsdname, true)"},
     {"name": "cname_for_any", "file": ZTYPES, "old": "if !RecordType::CNAME.matches(qtype) {", "new": "if QueryType::Record(RecordType::CNAME) != qtype {"},
